@@ -295,7 +295,8 @@ def nsMatchedGo (cfgNs : String) (cur : Bool) : List String → Bool
 /-- `virtualServiceDestinationsFilteredBySourceNamespace`: host -> set of ports (0 = no port). -/
 def vsDestinations (v : VS) (cfgNs : String) : List (String × List Nat) :=
   let ds := (v.http.filter fun r => cfgNs == "" || nsMatchedGo cfgNs true r.srcNs).flatMap (·.dests) ++ v.tcp
-  ((ds.map (·.host)).eraseDups).map fun h => (h, (ds.filter (·.host == h)).map (·.port))
+  -- `collectImportedServices` visits the destinations in hostname order
+  (isort (fun a b => !(b < a)) ((ds.map (·.host)).eraseDups)).map fun h => (h, (ds.filter (·.host == h)).map (·.port))
 
 /-! ### `appendSidecarServices` -/
 
@@ -336,20 +337,24 @@ def pickFirst (m : Mesh) (byNs : List (String × Svc)) (cfgNs : String) : String
   | some ns => ns
   | none => ""
 
-def oldest : List (String × Svc) → Option (String × Svc)
-  | [] => none
-  | a :: t => match oldest t with
-    | none => some a
-    | some b => if b.2.ctime < a.2.ctime then some b else some a
+/-- `betterVisibleService`: a Kubernetes service beats any other, an older non-Kubernetes service
+    beats a newer one, what remains equal goes to the alphabetically first namespace. -/
+def betterVisible (a b : Svc) : Bool :=
+  if a.k8s != b.k8s then a.k8s
+  else if !a.k8s && a.ctime != b.ctime then a.ctime < b.ctime
+  else a.ns < b.ns
+
+/-- loop body of `pickBestVisibleNamespace` (`currentBestService`) -/
+def bestStep (cur : Option Svc) (p : String × Svc) : Option Svc :=
+  match cur with
+  | none => some p.2
+  | some c => if betterVisible p.2 c then some p.2 else some c
 
 /-- `pickBestVisibleNamespace` -/
 def pickBest (m : Mesh) (byNs : List (String × Svc)) (cfgNs : String) : String :=
-  let vis := byNs.filter fun p => isServiceVisible m p.2 cfgNs
-  match vis.find? (·.2.k8s) with
-  | some p => p.2.ns
-  | none => match oldest vis with
-    | some p => p.2.ns
-    | none => ""
+  match (byNs.filter fun p => isServiceVisible m p.2 cfgNs).foldl bestStep none with
+  | some s => s.ns
+  | none => ""
 
 /-! ### the scope -/
 
